@@ -19,7 +19,8 @@ func init() {
 			"C01.2 every index/slice of wire bytes in the decoders and the packet entry is guarded by a length fact or by a recover that turns the panic into an error; " +
 			"C01.3 lock pairing for all mutex classes (no exit holding a lock, no unlock of an unheld lock); C01.4 no lock re-entry on any call path; " +
 			"C01.5 the packet-reader path (serve → processPacket → handlers, synchronous edges) performs no blocking operation besides the socket read and mutex acquisition; " +
-			"C01.6 census of explicit panic sites reachable from the packet path: each is discharged by a visible guard or listed as an assumed invariant.",
+			"C01.6 census of explicit panic sites reachable from the packet path: each is discharged by a visible guard or listed as an assumed invariant; " +
+			"C01.7 no library code performs a blocking operation (channel send/receive, blocking select, WaitGroup/limiter wait, sleep, socket I/O) while Server.mu is held in any mode, on any call path - the reader needs that lock for every datagram.",
 		NotDecided: "absence of all panics (integer arithmetic, allocation, third-party code such as bencode/immutable/log), liveness under load, scheduler fairness, behaviour of user hooks.",
 		Assume: []string{
 			"user hooks (OnQuery, OnAnnouncePeer, PeerStore, Store, Conn) do not call back into the Server while it holds Server.mu and do not mutate the *krpc.Msg they are shown",
@@ -32,6 +33,7 @@ func init() {
 			{ID: "C01.4", Doc: "no lock re-entry", Floor: 20, Run: c01r4},
 			{ID: "C01.5", Doc: "reader path never blocks", Floor: 5, Run: c01r5},
 			{ID: "C01.6", Doc: "panic-site census on the packet path", Floor: 8, Run: c01r6},
+			{ID: "C01.7", Doc: "nothing blocks while Server.mu is held", Floor: 8, Run: c01r7},
 		},
 	})
 }
@@ -387,4 +389,24 @@ func edgeCallees(es []*Edge) []*ssa.Function {
 		out = append(out, e.Callee)
 	}
 	return out
+}
+
+// ---- C01.7 --------------------------------------------------------------------------------------------
+
+// c01r7: every potentially blocking operation in library code executes with Server.mu released, in
+// every calling context the lock engine explored (API roots, goroutine roots, deferred execution).
+func c01r7(w *World, rr *RuleRun) {
+	w.LK.Run()
+	mu := w.LK.ClassByName("Server.mu")
+	for _, f := range w.P.LibFuncs {
+		for _, op := range w.LK.BlockingOps(f) {
+			st := w.LK.StatesAt(mu, op.Ins)
+			if st == nil {
+				rr.ObligeTrivialAt(w, op.Ins, op.What+" (function not reachable from an API or goroutine root)", true, "")
+				continue
+			}
+			ok := len(st) == 1 && st[LS0]
+			rr.At(w, op.Ins, op.What+" only with Server.mu released", ok, "Server.mu states at this point over all call paths: "+statesString(st))
+		}
+	}
 }
